@@ -12,7 +12,7 @@ ENCODED = ['Representer.represent_object / represent_name / represent_module / r
            'FullConstructor.construct_python_object / construct_python_object_apply / construct_python_object_new / make_python_instance / '
            'set_python_instance_state / construct_python_name / construct_python_module / construct_python_tuple / construct_python_complex',
            'UnsafeConstructor overrides', 'through yaml.dump(obj) (Dumper) and yaml.unsafe_load / yaml.full_load (text level: emitter, scanner, parser, composer included)']
-BOUNDS = {'quick': 'object graphs over 2 slots; each slot one of 16 shapes (instance dict, __slots__, __slots__+__dict__, __getstate__/__setstate__, __getnewargs__, '
+BOUNDS = {'quick': 'object graphs over 2 slots; each slot one of 18 shapes (instance dict, __slots__, __slots__+__dict__, __getstate__/__setstate__ with dict and with tuple state, __slots__ with __setstate__, __getnewargs__, '
                    '__reduce__ with args+state, __reduce__ without args, list / dict subclasses with attributes, list, dict, tuple, namedtuple, OrderedDict, set, leaf table incl. '
                    'enum / complex / class / function / module) with two child pointers each (any slot, itself included, or a leaf): sharing, nesting of shapes, cycles',
           'thorough': '3 slots'}
@@ -21,7 +21,8 @@ ASSUMPTIONS = ['oracle: pickle.loads(pickle.dumps(obj, 2)), compared by type-str
                'a ConstructorError is accepted only when the graph has a cycle that passes through something other than a list, a dict or a plain instance dictionary']
 
 LEAVES = [1, 'txt', None, 2.5, True, K.Color.RED, 3 + 4j, K.Plain, K.func, collections, b'by', K.Point(1, 'p'), (), (1, 'two'), K.Color, len]
-KINDS = ['Plain', 'Slots', 'SlotsAndDict', 'State', 'NewArgs', 'Reduce', 'ReduceNoArgs', 'ListSub', 'DictSub', 'list', 'dict', 'tuple', 'Point', 'OrderedDict', 'set', 'leaf']
+KINDS = ['Plain', 'Slots', 'SlotsAndDict', 'State', 'NewArgs', 'Reduce', 'ReduceNoArgs', 'ListSub', 'DictSub', 'list', 'dict', 'tuple', 'Point', 'OrderedDict', 'set', 'leaf',
+         'StatePair', 'SlotsState']
 MUTABLE_PLAIN = ('Plain', 'list', 'dict')            # a cycle through these only must be preserved
 IMMUTABLE = ('tuple', 'Point', 'NewArgs', 'set', 'leaf')
 
@@ -44,7 +45,7 @@ def build(ns, kinds, A, B, leaf_i):
     leaf = pick(leaf_i, LEAVES)
     for i in range(ns):
         k = kind[i]
-        if k in ('Plain', 'Slots', 'SlotsAndDict', 'State', 'ReduceNoArgs'):
+        if k in ('Plain', 'Slots', 'SlotsAndDict', 'State', 'ReduceNoArgs', 'StatePair', 'SlotsState'):
             objs[i] = getattr(K, k)()
         elif k == 'Reduce':
             objs[i] = K.Reduce(i)
@@ -88,6 +89,10 @@ def build(ns, kinds, A, B, leaf_i):
             o.kept = child(a, i)
         elif k == 'Slots':
             o.p, o.q = child(a, i), child(b, i)
+        elif k == 'StatePair':
+            o.first, o.second = child(a, i), child(b, i)
+        elif k == 'SlotsState':
+            o.u, o.v = child(a, i), child(b, i)
         elif k == 'SlotsAndDict':
             o.p = child(a, i)
             o.dyn = child(b, i)
@@ -112,7 +117,7 @@ def build(ns, kinds, A, B, leaf_i):
     return objs[0], info, edges
 
 
-DEEP_KINDS = ('Slots', 'SlotsAndDict', 'State', 'NewArgs', 'Reduce', 'ReduceNoArgs', 'ListSub', 'DictSub', 'Point', 'OrderedDict')
+DEEP_KINDS = ('Slots', 'SlotsAndDict', 'State', 'NewArgs', 'Reduce', 'ReduceNoArgs', 'ListSub', 'DictSub', 'Point', 'OrderedDict', 'StatePair', 'SlotsState')
 
 
 def _closure(info, edges):
@@ -233,20 +238,116 @@ def objects(ns: int, k0: int, k1: int, k2: int, k3: int, a0: int, a1: int, a2: i
     return 'ok'
 
 
+SIB = ['scalar', 'list[prev]', 'dict{k: prev}', 'tuple(prev)', 'Point(prev, 1)', 'OrderedDict(k=prev)', 'State(prev)', 'Reduce(extra=prev)', 'selflist', 'selfdict',
+       'list[root]', 'Plain(x=prev)', 'StatePair(prev, prev)', 'ListSub[prev]']
+
+
+def _sib(kind, prev, root):
+    k = pick(kind, SIB)
+    if k == 'scalar':
+        return 'leaf'
+    if k == 'list[prev]':
+        return [prev]
+    if k == 'dict{k: prev}':
+        return {'k': prev}
+    if k == 'tuple(prev)':
+        return (prev, 1)
+    if k == 'Point(prev, 1)':
+        return K.Point(prev, 1)
+    if k == 'OrderedDict(k=prev)':
+        return collections.OrderedDict([('k', prev), ('j', 2)])
+    if k == 'State(prev)':
+        o = K.State()
+        o.inner = {'a': prev}
+        return o
+    if k == 'Reduce(extra=prev)':
+        o = K.Reduce(7)
+        o.extra = prev
+        return o
+    if k == 'selflist':
+        l = ['x']
+        l.append(l)
+        return l
+    if k == 'selfdict':
+        d = {}
+        d['self'] = d
+        return d
+    if k == 'list[root]':
+        return [root]
+    if k == 'Plain(x=prev)':
+        o = K.Plain()
+        o.x = prev
+        return o
+    if k == 'StatePair(prev, prev)':
+        o = K.StatePair()
+        o.first = o.second = prev
+        return o
+    o = K.ListSub([prev])
+    o.note = prev
+    return o
+
+
+def siblings(s0: int, s1: int, s2: int, rootkind: int) -> str:
+    return siblings_for(P, s0, s1, s2, rootkind)
+
+
+def siblings_for(P, s0, s1, s2, rootkind):
+    """three siblings under one root, each built from a menu of shapes that use the previous sibling
+    (sharing between different shapes; deep and lazy construction interleaved; self-references later
+    in the document)"""
+    root = [] if rootkind == 0 else {}
+    a = _sib(s0, 'first', root)
+    b = _sib(s1, a, root)
+    c = _sib(s2, b, root)
+    if rootkind == 0:
+        root.extend([a, b, c])
+    else:
+        root['a'], root['b'], root['c'] = a, b, c
+    kinds = [pick(s0, SIB), pick(s1, SIB), pick(s2, SIB)]
+    deep_kinds = ('Point(prev, 1)', 'OrderedDict(k=prev)', 'State(prev)', 'Reduce(extra=prev)', 'StatePair(prev, prev)', 'ListSub[prev]')
+    # a cycle below a deeply constructed node is known finding K6; a cycle through such a node is allowed to fail
+    cyc = [i for i, k in enumerate(kinds) if k in ('selflist', 'selfdict', 'list[root]')]
+    under_deep = any(kinds[j] in deep_kinds for i in cyc for j in range(i + 1, 3)) or \
+        ('list[root]' in kinds and any(k in deep_kinds for k in kinds))
+    try:
+        want = pickle.loads(pickle.dumps(root, 2))
+        text = yaml.dump(root)
+    except Exception as e:
+        not_a_finding(e)
+        return fail(P, 'dump ' + exc_sig(e), s0=s0)
+    try:
+        got = yaml.unsafe_load(text)
+    except yaml.constructor.ConstructorError:
+        reach()
+        return fail(P, 'REJECTED a graph whose cycles run only through lists, dicts and instance dictionaries', s0=s0, deep=under_deep)
+    except Exception as e:
+        not_a_finding(e)
+        return fail(P, 'load ' + exc_sig(e), s0=s0, s1=s1)
+    reach()
+    if not bisim(got, want, {}, {}):
+        return fail(P, 'DIFFERS from what pickle protocol 2 rebuilds (types, state, sharing or cycles)', s0=s0, s1=s1)
+    return 'ok'
+
+
 def jobs(tier):
     q = tier == 'quick'
     NS = 2 if q else 3
     NK = len(KINDS)
     js = []
-    for k in range(NK - 1):
+    for k in [x for x in range(NK) if KINDS[x] != 'leaf']:
         js.append(Job('objects/root=%s' % KINDS[k], objects,
                       [lambda ns, k0, k1, k2, k3, a0, a1, a2, a3, b0, b1, b2, b3, leaf_i, _k=k:
                        ns == NS and k0 == _k and 0 <= k1 < NK and 0 <= k2 < (NK if NS >= 3 else 1) and k3 == 0 and
                        0 <= a0 <= NS and 0 <= a1 <= NS and 0 <= a2 <= (NS if NS >= 3 else 0) and a3 == 0 and
-                       0 <= b0 <= NS and 0 <= b1 <= NS and 0 <= b2 <= (NS if NS >= 3 else 0) and b3 == 0 and
+                       0 <= b0 <= NS and (b1 == NS if q else 0 <= b1 <= NS) and 0 <= b2 <= (NS if NS >= 3 else 0) and b3 == 0 and
                        (leaf_i == 0 if q else 0 <= leaf_i <= 1)],
                       budget=250 if q else 1800, exhaust=q,
                       bounds='root shape %s, %d further slot(s) of %d shapes, both child pointers of every slot free (any slot, itself, or a leaf)' % (KINDS[k], NS - 1, NK)))
+    NSIB = len(SIB)
+    for k in range(NSIB):
+        js.append(Job('siblings/first=%s' % SIB[k], siblings,
+                      [lambda s0, s1, s2, rootkind, _k=k: s0 == _k and 0 <= s1 < NSIB and 0 <= s2 < NSIB and 0 <= rootkind <= 1],
+                      budget=250, bounds='root list/dict with three siblings: first %s, second and third of %d shapes each built on the previous sibling' % (SIB[k], NSIB)))
     js.append(Job('leaves', objects,
                   [lambda ns, k0, k1, k2, k3, a0, a1, a2, a3, b0, b1, b2, b3, leaf_i: ns == 2 and (k0 == 0 or k0 == 9 or k0 == 11 or k0 == 7) and k1 == 15 and k2 == 0 and k3 == 0 and
                    (a0 == 1 or a0 == 2) and a1 == 0 and a2 == 0 and a3 == 0 and (b0 == 1 or b0 == 2) and b1 == 0 and b2 == 0 and b3 == 0 and 0 <= leaf_i < len(LEAVES)],
